@@ -385,6 +385,15 @@ def main(tier):
     run.cov["vacuity_witnesses_refuted"] = ["PatternAgreesEvenUnaligned"]
     r = rng("c01")
     socs = [gen_soc(r) for _ in range(120 if thorough else 20)]
+    # two delicate leaves in every run, whatever the seed: registers of three bus words that are NOT naturally
+    # aligned (an event monitor whose masks land at addresses 0-2 / 3-5; a multiplexer with 3-chunk registers at 1 and 5)
+    for k, gran in enumerate((8, 16)):
+        dw = gran * (2 if k else 1)
+        socs.append({"dw": dw, "gran": gran, "g": dw // gran, "al": 0, "extra": k, "seed": r.getrandbits(30), "tops": [
+            {"kind": "csr", "name": None, "root": {"kind": "evmon", "n": 2 * gran + 1 + k * 3, "al": 0, "name": None}},
+            {"kind": "csr", "name": "m", "root": {"kind": "mux", "aw": 4, "al": 0, "name": None, "overlaps": None, "regs": [
+                {"size": 3, "width": 3 * gran - 1, "acc": "rw", "addr": 1, "value": r.getrandbits(3 * gran)},
+                {"size": 3, "width": 3 * gran, "acc": "rw", "addr": 5, "value": r.getrandbits(3 * gran)}]}}]})
     traces = pmap(_job, socs)
     obs = []
     for t in traces:
